@@ -1,15 +1,15 @@
 SPECIFICATION Spec
 CONSTANTS
-  Arity = 2
-  NVs = {3}
+  Arity = 0
+  NVs = {2}
   MinCells = 0
-  MaxCells = 2
+  MaxCells = 0
   AnyOrientation = FALSE
-  InitData = {"none", "full"}
+  InitData = {"none"}
   MaxData = 2
-  MaxIx = 2
+  MaxIx = 1
   MaxDepth = 3
-  CellMask = TRUE
+  CellMask = FALSE
   Valueless = TRUE
   Deviations = {"ValuelessChildBreaksRemoval"}
 INVARIANT LengthsAgree
